@@ -127,6 +127,12 @@ def r132(ctx):
             if "prev_headers.1" in src or "prev_filter_header" in src:
                 zsites += 1
                 zero_edges |= fv.result_edges(bi, c, "ok")
+    # the same test spelled as a comparison with the all-zero array: `h.to_byte_array() == [0u8; 32]`
+    import re as _re
+    for bi, c, is_ne, r0, r1 in R.comparison_sites(fv, lambda a, z: ("prev_headers.1" in a or "prev_filter_header" in a)
+                                                  and _re.search(r"\[const 0_u8; \d+\]", z) is not None):
+        zsites += 1
+        zero_edges |= fv.result_edges(bi, c, "err" if is_ne else "ok")
     ctx.ob("R13.2", zsites == 1, f"{b.name}/zero-filter-test", f"expected exactly one all-zero filter-header test, found {zsites}",
            where=f"{b.file}:{b.line}")
     for sb, ln in succ:
